@@ -47,7 +47,22 @@ def run_plot(toks, state):
     from . import real
     a = json.loads(real.unhex6(toks[2]))
     entry = toks[1]
-    plt.close("all")
+    # figures are closed by the harness only at the start of a block and after a show_* call (getFig=True hands the figure to the
+    # caller); a save_* call has to leave no figure behind by itself - a later plot of the same block would otherwise show it
+    if not state.get("plot_started"):
+        plt.close("all")
+        state["plot_started"] = True
+    at_save = []
+    orig_savefig = plt.savefig
+
+    def recording_savefig(*args, **kwargs):
+        # what is about to be written: the figure as it is at save time
+        try:
+            at_save.append(figdesc(plt, None))
+        except Exception as e:  # noqa
+            at_save.append({"nofig": True, "error": repr(e)})
+        return orig_savefig(*args, **kwargs)
+    plt.savefig = recording_savefig
     tmp = tempfile.mkdtemp(prefix="ciderverif_plot_")
     try:
         fname = os.path.join(tmp, "out." + a.get("fmt", "png"))
@@ -105,12 +120,17 @@ def run_plot(toks, state):
             else:
                 raise KeyError(entry)
         d = figdesc(plt, ret)
+        d["open_figures_after"] = len(plt.get_fignums())
         if saved:
+            d["at_save"] = at_save[-1] if at_save else None
+            d["n_savefig_calls"] = len(at_save)
             d["saved"] = os.path.exists(saved) and os.path.getsize(saved) > 100
             if d["saved"]:
                 head = open(saved, "rb").read(8)
                 d["magic"] = "png" if head.startswith(b"\x89PNG") else "pdf" if head.startswith(b"%PDF") else "svg" if head.startswith(b"<?xml") else "other"
-        plt.close("all")
+        if "_show_" in entry:
+            plt.close("all")
         return ("fig", d)
     finally:
+        plt.savefig = orig_savefig
         shutil.rmtree(tmp, ignore_errors=True)
